@@ -8,8 +8,9 @@ from vlib.core import Case, cases_text, split_cases, split_res
 PROP = "C02"
 SPEC_MODE = "spec"
 KEEP_PREFIX = 2                       # `clock`, `load`
-SIZES = {"quick": 900, "thorough": 30000}
+SIZES = {"quick": 4500, "thorough": 120000}
 BATCH = 1500
+EXTRA_MODULES = ("Sentinel.Lemmas.FlowReject", "Sentinel.Lemmas.FlowRejectConc")
 KEY = "assoc-standalone-own-traffic"
 RULE = ("per case: one flow.LoadRules of 1-5 Direct/Reject rules over resources 1..4 (thresholds incl. 0, fractional, subnormal, "
         "NaN, +Inf, negative=invalid; StatIntervalInMs so that default view, derived view, independent window (n buckets of 500, or "
@@ -122,7 +123,18 @@ def gen_case(rng, cid, force_region=None):
 
 
 def gen(ctx, n):
-    return [gen_case(ctx.rng, f"g{ctx.seed}-{ctx.cov.get('traces_validated_against_impl', 0) + i}") for i in range(n)]
+    base = ctx.cov.get("traces_validated_against_impl", 0)
+    cases = [gen_case(ctx.rng, f"g{ctx.seed}-{base + i}") for i in range(n)]
+    dist = ctx.cov.setdefault("rule_geometries", {})
+    for c in cases:
+        for t in c.tags:
+            dist[t] = dist.get(t, 0) + 1
+        rules = [x.split(",") for x in c.ops[1].split()[2:]]
+        if any(r[3] != "-" and r[3] != r[0] and geom(int(r[2]))[0] == "own" for r in rules):
+            dist["cases-inside-known-finding-region"] = dist.get("cases-inside-known-finding-region", 0) + 1
+        if len(rules) > 1:
+            dist["cases-with-several-rules"] = dist.get("cases-with-several-rules", 0) + 1
+    return cases
 
 
 def corpus():
@@ -264,8 +276,50 @@ def extra(ctx, eng):
 
 
 def run(ctx):
+    """std.run, except that a broken known-finding replay (impl != as-is model on it) does not end the run: the
+    generated cases are still explored so that the verdict carries a shrunk failing input whenever one exists."""
+    import os
     import sys
-    return std.run(ctx, sys.modules[__name__], extra=extra)
+    from vlib.corr import Engine, finalize_cov
+    pm = sys.modules[__name__]
+    ok, problem = core.lean_stage(ctx, EXTRA_MODULES)
+    ctx.log("lean stage:", "ok" if ok else "BROKEN", f"({ctx.cov.get('discharged')}/{ctx.cov.get('obligations')} theorems)")
+    binary, log = core.build_harness()
+    if binary is None:
+        ctx.violation("harness-build.txt", "the correspondence harness does not build against the current tree, so the tie between model "
+                      "and code cannot be checked and the property is not shown\n" + log[-4000:], no_input=True)
+        finalize_cov(ctx, RULE)
+        return ctx.finish()
+    if not os.path.exists(core.DRIVER):
+        ctx.violation("lean-build.txt", "the Lean driver does not build:\n" + problem, no_input=True)
+        finalize_cov(ctx, RULE)
+        return ctx.finish()
+    eng = Engine(ctx, pm, binary)
+    eng.replay_known()
+    stashed, ctx.violations = ctx.violations, []       # `.corr` reports of the known replays (no failing input in them)
+    corp = corpus()
+    if corp:
+        eng.check(corp, "corpus")
+    n, done = SIZES[ctx.tier], 0
+    while done < n and not ctx.violations:
+        k = min(BATCH, n - done)
+        eng.check(gen(ctx, k), "generated")
+        done += k
+        ctx.log(f"{done}/{n} cases, {ctx.cov.get('evaluations', 0)} observations compared")
+    if not ctx.violations:
+        extra(ctx, eng)
+    if not any(not no_input for _, no_input in ctx.violations):
+        ctx.violations = stashed + ctx.violations       # nothing better was found: keep the correspondence reports
+    if not ok and not ctx.violations:
+        ctx.violation("proof-broken.txt", f"proof obligations of Sentinel.Props.{PROP} no longer check:\n{problem}\n"
+                      "the correspondence run found no input on which the property fails\n", no_input=True)
+    finalize_cov(ctx, RULE)
+    if ctx.tier == "thorough" and ok:
+        rc, so, se = core.sh(["lake", "env", "leanchecker", f"Sentinel.Props.{PROP}"], cwd=core.LEAN, timeout=3600)
+        ctx.cov["leanchecker"] = "ok" if rc == 0 else ("failed: " + (so + se)[-500:])
+        if rc != 0:
+            ctx.violation("leanchecker.txt", so + se, no_input=True)
+    return ctx.finish()
 
 
 META = {
